@@ -58,6 +58,10 @@ CHECKS["C06"] = dict(level="fault_enumeration", engine="E3-fault",
    technique="exhaustive fault enumeration on the real packagers: every destination-write index x 3 failure shapes, every file reference broken one at a time, every invalid-setting class, every signer call failing, and the built CLI on /dev/full and pre-existing targets",
    text="For every format x {unsigned, signed} x compression class the writes of a clean run are counted and every write index k is failed as (error, short write, sticky from k on), each from a fresh parse; Package must return an error whenever the fault was consumed, and bytes accepted under a nil error are decoded. Every file reference of the configuration (content sources, each script slot, changelog, key file) is removed / replaced by a directory / made a dangling symlink, one at a time. 20 invalid-setting classes. A signing callback failing at each of its calls. The nfpm binary built from the tree is run with missing source, missing script, invalid settings, missing/invalid config file, a target (file or conventional name inside a directory) that is a symlink to /dev/full, and a pre-existing target: exit status != 0, a cause printed, nothing left at the target path.",
    note="Trusted: the harness fault writer (counts Write calls; faults obey the io.Writer contract); /dev/full as ENOSPC device; a tree source that is itself a symlink is outside the alphabet.", ref="§3 C06")
+CHECKS["C10"] = dict(level="model_checking", engine="E1-enum",
+   technique="bounded-exhaustive enumeration of signing methods x key kinds x payloads x compressions x {key file, callback}, every callback call failing, and a key-file rotation history, on the real packagers; signatures extracted by the harness and verified with go-crypto/crypto-rsa and gpgv/openssl over the verifier's bytes",
+   text="deb debsign (types origin/maint/archive/invalid), deb dpkg-sig, rpm and apk x 12 OpenPGP key kinds (armored, binary, protected with general/format-specific passphrase variable, subkey-only, explicit primary/subkey key id, wrong/missing passphrase, several keys, invalid key id, missing file) resp. 7 RSA key kinds (PKCS#1, PKCS#8, 4096-bit, encrypted PEM, wrong passphrase, garbage) x 4 payloads x deb compressions x {key file, signing callback}. The harness extracts the signature member/tags and verifies them over exactly the verifier's bytes (members as stored; clear-signed manifest lines vs stored members; rpm header and header+payload; apk control segment as shipped) with go-crypto / crypto/rsa and gpgv / openssl. A capturing callback must have received precisely those bytes. A callback failing at each of its calls, invalid types and unusable keys must give no success and an error identifiable as ErrSigningFailure that carries the signer's error. The key file is also replaced between two builds in one process.",
+   note="Trusted: go-crypto/crypto-rsa as verifier with gpgv/openssl as independent second implementations (disagreement = harness error); ErrSigningFailure.Err counts as wrapping.", ref="§3 C10")
 NOT_YET = {}
 ALL = ["C%02d" % i for i in range(1, 18)]
 
